@@ -485,6 +485,31 @@ func runC19(c *Ctx) {
 							deferred = true
 						}
 					}
+					// … or the removal is a function of its own that the package only ever calls in a defer
+					if !deferred && b.Lit == nil {
+						nsites, all := 0, true
+						for _, ob := range bodies {
+							dcs := deferredCalls(ob.Body)
+							directNodes(ob.Body, func(m ast.Node) bool {
+								call, ok := m.(*ast.CallExpr)
+								if !ok || types.Object(calleeOf(info, call)) != info.Defs[b.Decl.Name] {
+									return true
+								}
+								nsites++
+								isDef := false
+								for _, dc := range dcs {
+									if dc == call {
+										isDef = true
+									}
+								}
+								if !isDef {
+									all = false
+								}
+								return true
+							})
+						}
+						deferred = nsites > 0 && all
+					}
 					c.check(deferred, "C19.R3", funcKey(p, b.Decl)+"|unregister-deferred", c.pos(n.Pos()), "removal runs in a defer, on every exit of the handler",
 						"the client is not removed in a defer: an early return (write error) leaves a dead client in the registry, and every later broadcast leaks a goroutine on it")
 				}
